@@ -377,12 +377,14 @@ def c_reduce_tol(ctx, args):
         import torch, torchclifford as tc, vlib.impl_torch as TT
         mk = lambda ts: tc.paulialg.PauliPolynomial(TT.GS([t[0] for t in ts], 2 * n), TT.PS([t[1] for t in ts])).set_cs(torch.tensor([complex(*t[2]) for t in ts], dtype=torch.complex128))
         eps = 1e-18
-    want = {}
+    exact = {}
     for g, p, c in terms:
-        want[tuple(g)] = want.get(tuple(g), 0) + complex(*c) * 1j ** (p % 4)
-    if any(abs(abs(v) - tol) <= 1e-4 * max(abs(v), tol) for v in want.values() if tol):
-        return None          # a merged coefficient sits on the tolerance: nothing to decide
-    want = {k: v for k, v in want.items() if abs(v) > tol}
+        exact[tuple(g)] = exact.get(tuple(g), 0) + complex(*c) * 1j ** (p % 4)
+    size = max([abs(complex(*t[2])) for t in terms] + [eps])
+    acc = 1e-9 if be == 'np' else 1e-5          # (the port evaluates 1j ** ps in single precision: a sum that cancels exactly leaves a residue of that relative size)
+    noise = acc * size
+    required = {k: v for k, v in exact.items() if abs(v) > tol + noise}            # clearly above the tolerance: must be there, with this value
+    forbidden = {k for k, v in exact.items() if tol > 0 and abs(v) < tol - noise}   # clearly below a positive tolerance: must be gone; anything within the noise of the threshold is not decided
     try:
         r = mk(terms).reduce(tol) if tol != 'kw0' else mk(terms).reduce(tol=0)
     except Exception as e:
@@ -391,11 +393,12 @@ def c_reduce_tol(ctx, args):
     for g, p, c in zip(r.gs, r.ps, r.cs):
         k = tuple(int(v) for v in g)
         got[k] = got.get(k, 0) + complex(c) * 1j ** (int(round(float(p))) % 4)
-    rel = max([abs(v) for v in want.values()] + [0.0])
-    acc = 1e-9 if be == 'np' else 1e-5          # (the port evaluates 1j ** ps in single precision)
-    if set(got) != set(want) or any(abs(got[k] - want[k]) > acc * max(rel, eps) for k in want):
-        return {'kind': 'oracle', 'where': '%s:reduce(tol=%r) kept %d of the %d merged terms that are above the tolerance' % (be, tol, len(set(got) & set(want)), len(want)),
-                'observed': sorted((list(k), [v.real, v.imag]) for k, v in got.items())[:6], 'expected': sorted((list(k), [v.real, v.imag]) for k, v in want.items())[:6], 'tags': ['reduce_tol', be]}
+    missing = [k for k in required if k not in got or abs(got[k] - required[k]) > noise]
+    present = [k for k in forbidden if k in got]
+    stray = [k for k in got if k not in exact]
+    if missing or present or stray:
+        return {'kind': 'oracle', 'where': '%s:reduce(tol=%r): %d term(s) above the tolerance lost or changed, %d below it kept, %d foreign' % (be, tol, len(missing), len(present), len(stray)),
+                'observed': sorted((list(k), [v.real, v.imag]) for k, v in got.items())[:6], 'expected': sorted((list(k), [v.real, v.imag]) for k, v in required.items())[:6], 'tags': ['reduce_tol', be]}
     return None
 
 
